@@ -29,6 +29,12 @@ CLAIMED = {
         text="Theorems for every list of well-formed records (ids up to the full 16 bytes, descriptions up to 32, any payload; 2-byte length for VLRs, 8-byte for EVLRs): the written bytes are read back as the same list in order and the reader consumes exactly header+payload bytes; an over-long VLR payload makes the whole write fail; for each known type the re-serialised payload is a fixed point of parse-then-serialise (content stable), three types are exact inverses, and unparsable or unknown records are kept verbatim. The model's encoder/decoder are compared byte for byte with the real classes on seeded record lists, known-type payloads well-formed and malformed, and through file round trips. Partial: idempotence for the classification lookup is validated by correspondence only (no theorem yet).",
         note="Trusted: Lean kernel; generated field widths; ASCII restriction of the generator for WKT / lookup names (UTF-8 validity is modelled as ASCII-only; invalid sequences are exercised as malformed); ids ('copc',1) and ('copc',1000) reserved (COPC classes refuse to serialise).",
         design="6 (C08)"),
+    "C07": dict(
+        engine="codec",
+        technique="Lean 4 proof of the header codec round trip (sequential little-endian/string/VLR lemmas composed over ~40 fields, per-version case split), size arithmetic, in-place rewrite, date and API-compatibility theorems; byte-exact correspondence with LasHeader.write_to/read_from",
+        text="Theorems over every header in the legal domain (WF: field widths, versions 1.1-1.4, NUL-free strings up to 32 bytes, any 64-bit patterns for the 12 doubles, any extra header bytes/padding, any well-formed VLR list): the written bytes have exactly version size + extra bytes + 54-byte VLR headers + payloads + padding, that length is the recorded offset to point data, decoding the bytes followed by anything returns every field; a statistics-only update re-encodes to the same length so the same-size guard cannot fire; every civil date 0001-01-01..9999-12-31 survives (case split, no enumeration); every construction/setter/create/convert/writer path ends in the compatibility check, so an ok result is a compatible pair for all versions and formats. The model is compared byte for byte with the real header class on boundary-heavy and damaged headers, every day of many years, and the full API matrix.",
+        note="Trusted: Lean kernel; generated sizes/tables and the generated preferred-version function; struct.pack('<d') bit-exactness; datetime.date arithmetic (model validated against it on full years); the point-format / extra-bytes resolution that follows parseHdr in read_from is modelled in the file-level checks, not here. Reading is lenient and never checks compatibility (by design).",
+        design="6 (C07)"),
 }
 NOT_YET = "check not built yet in this round (planned per DESIGN.md section 10); not claimed until its theorems build and its check is quiet"
 
